@@ -692,79 +692,128 @@ func (m *Model) analyseHandler(pm *prattModel, h *handler, _ string) {
 	for d := best; d != nil; d = d.Idom() {
 		chain = append([]*ssa.BasicBlock{d}, chain...)
 	}
-	consumed := false // a nextToken / successful expectPeek happened since entry
-	for _, b := range chain {
-		for _, in := range b.Instrs {
-			c, ok := in.(*ssa.Call)
-			if !ok {
-				continue
-			}
-			sc := c.Call.StaticCallee()
-			if sc == nil || !m.InModule(sc) {
-				continue
-			}
-			switch canonFnName(sc) {
-			case "nextToken":
-				h.steps = append(h.steps, parseStep{op: "next"})
-				consumed = true
-			case "expectPeek":
-				tn := "?"
-				if k, ok := c.Call.Args[1].(*ssa.Const); ok {
-					tn = pm.tokName[k.Int64()]
+	collect := func(chain []*ssa.BasicBlock) []parseStep {
+		h := &handler{fn: fn}
+		consumed := false // a nextToken / successful expectPeek happened since entry
+		for _, b := range chain {
+			for _, in := range b.Instrs {
+				c, ok := in.(*ssa.Call)
+				if !ok {
+					continue
 				}
-				h.steps = append(h.steps, parseStep{op: "expect", tok: tn})
-				consumed = true
-			case "parseExpression":
-				h.steps = append(h.steps, parseStep{op: "parse", bp: m.bpOf(pm, c.Call.Args[1], consumed, c.Pos())})
-			case "parseExpressionList":
-				tn := "?"
-				if k, ok := c.Call.Args[1].(*ssa.Const); ok {
-					tn = pm.tokName[k.Int64()]
+				sc := c.Call.StaticCallee()
+				if sc == nil || !m.InModule(sc) {
+					continue
 				}
-				h.steps = append(h.steps, parseStep{op: "list", tok: tn})
-			case "parseIdentifier":
-				h.steps = append(h.steps, parseStep{op: "ident"})
-			case "parseCallExp":
-				h.steps = append(h.steps, parseStep{op: "call"})
+				switch canonFnName(sc) {
+				case "nextToken":
+					h.steps = append(h.steps, parseStep{op: "next"})
+					consumed = true
+				case "expectPeek":
+					tn := "?"
+					if k, ok := c.Call.Args[1].(*ssa.Const); ok {
+						tn = pm.tokName[k.Int64()]
+					}
+					h.steps = append(h.steps, parseStep{op: "expect", tok: tn})
+					consumed = true
+				case "parseExpression":
+					h.steps = append(h.steps, parseStep{op: "parse", bp: m.bpOf(pm, c.Call.Args[1], consumed, c.Pos())})
+				case "parseExpressionList":
+					tn := "?"
+					if k, ok := c.Call.Args[1].(*ssa.Const); ok {
+						tn = pm.tokName[k.Int64()]
+					}
+					h.steps = append(h.steps, parseStep{op: "list", tok: tn})
+				case "parseIdentifier":
+					h.steps = append(h.steps, parseStep{op: "ident"})
+				case "parseCallExp":
+					h.steps = append(h.steps, parseStep{op: "call"})
+				}
 			}
 		}
+		return h.steps
 	}
+	h.steps = collect(chain)
 	// classify
-	var sig []string
-	for _, s := range h.steps {
-		switch s.op {
-		case "expect", "list":
-			sig = append(sig, s.op+":"+s.tok)
-		default:
-			sig = append(sig, s.op)
+	classify := func(steps []parseStep) string {
+		h := &handler{fn: fn, steps: steps}
+		var sig []string
+		for _, s := range h.steps {
+			switch s.op {
+			case "expect", "list":
+				sig = append(sig, s.op+":"+s.tok)
+			default:
+				sig = append(sig, s.op)
+			}
 		}
+		nparams := len(fn.Params) // receiver + left?
+		infix := nparams == 2
+		sg := strings.Join(sig, ",")
+		switch {
+		case infix && sg == "next,parse":
+			h.shape = "binary"
+		case infix && sg == "next,parse,expect:COLON,next,parse":
+			h.shape = "ternary"
+		case infix && sg == "next,parse,expect:RBRACKET":
+			h.shape = "index"
+		case infix && sg == "":
+			h.shape = "postfix"
+		case infix && (sg == "expect:IDENT,ident" || sg == "expect:IDENT,call" || sg == "expect:IDENT,ident,call" || sg == "expect:IDENT,call,ident"):
+			h.shape = "dot"
+		case infix && (sg == "next,ident" || sg == "next,call" || sg == "next,ident,call" || sg == "next,call,ident" || sg == "next,expect:IDENT,ident" || sg == "next,expect:IDENT,call" || sg == "next,expect:IDENT,ident,call" || sg == "next,expect:IDENT,call,ident"):
+			h.shape = "dot" // the name token is stepped onto either as an identifier or as a keyword used as a name (R-DOTKW says which tokens)
+		case !infix && sg == "next,parse":
+			h.shape = "prefixop"
+		case !infix && sg == "next,parse,expect:RPAREN":
+			h.shape = "group"
+		case !infix && sg == "":
+			h.shape = "atom"
+		case !infix:
+			// any other prefix construct is closed by its own delimiters (array, object literal);
+			// its inner parseExpression calls are complete-expression sites
+			h.shape = "atom"
+		default:
+			h.shape = "unknown:" + sg
+		}
+		return h.shape
 	}
-	nparams := len(fn.Params) // receiver + left?
-	infix := nparams == 2
-	sg := strings.Join(sig, ",")
-	switch {
-	case infix && sg == "next,parse":
-		h.shape = "binary"
-	case infix && sg == "next,parse,expect:COLON,next,parse":
-		h.shape = "ternary"
-	case infix && sg == "next,parse,expect:RBRACKET":
-		h.shape = "index"
-	case infix && sg == "":
-		h.shape = "postfix"
-	case infix && (sg == "expect:IDENT,ident" || sg == "expect:IDENT,call" || sg == "expect:IDENT,ident,call" || sg == "expect:IDENT,call,ident"):
-		h.shape = "dot"
-	case !infix && sg == "next,parse":
-		h.shape = "prefixop"
-	case !infix && sg == "next,parse,expect:RPAREN":
-		h.shape = "group"
-	case !infix && sg == "":
-		h.shape = "atom"
-	case !infix:
-		// any other prefix construct is closed by its own delimiters (array, object literal);
-		// its inner parseExpression calls are complete-expression sites
-		h.shape = "atom"
-	default:
-		h.shape = "unknown:" + sg
+	h.shape = classify(h.steps)
+	if strings.HasPrefix(h.shape, "unknown") {
+		// the calls of the success path do not all dominate the return (`if peek is a keyword { next } else if
+		// !expect(IDENT) { return nil }`): every acyclic path from the entry to that return is read on its own, and
+		// the shape stands when all of them agree
+		var paths [][]*ssa.BasicBlock
+		var dfs func(b *ssa.BasicBlock, path []*ssa.BasicBlock, on map[*ssa.BasicBlock]bool)
+		dfs = func(b *ssa.BasicBlock, path []*ssa.BasicBlock, on map[*ssa.BasicBlock]bool) {
+			if len(paths) > 64 || on[b] {
+				return
+			}
+			path = append(path, b)
+			if b == best {
+				paths = append(paths, append([]*ssa.BasicBlock{}, path...))
+				return
+			}
+			on[b] = true
+			for _, nx := range b.Succs {
+				dfs(nx, path, on)
+			}
+			delete(on, b)
+		}
+		dfs(fn.Blocks[0], nil, map[*ssa.BasicBlock]bool{})
+		shape, agree := "", len(paths) > 0 && len(paths) <= 64
+		var first []parseStep
+		for _, pth := range paths {
+			st := collect(pth)
+			sh := classify(st)
+			if shape == "" {
+				shape, first = sh, st
+			} else if sh != shape {
+				agree = false
+			}
+		}
+		if agree && !strings.HasPrefix(shape, "unknown") {
+			h.shape, h.steps = shape, first
+		}
 	}
 }
 
